@@ -455,6 +455,45 @@ Fixpoint set_obj (objs : list nmobj) (k : nat) (ob : nmobj) : list nmobj :=
 Definition objs_call (objs : list nmobj) (ftols : list T) (ob : nat) (r : nmreq) : res (list nmobj * nmout) :=
   rmap (fun p => (set_obj objs ob (fst p), snd p)) (obj_call (obj_at objs ob) (nth ob ftols zero) (req_call objs r)).
 
+(** ** 3.3c what else can happen to an object between two calls
+    (a) The caller writes the public members: nfunc, mpts, ndim, fmin, y, current_simplex are plain public data members
+        (m.y = ..., m.current_simplex = ..., m.nfunc = ...).
+    (b) A call is abandoned: the objective throws at its n-th evaluation, the exception passes through minimize (which holds only
+        vectors), the caller catches it and uses the object again.  minimize evaluates the objective at the points of the trace, in
+        that order, so the abandoned call has asked for exactly the first n of them; it leaves mpts, ndim and current_simplex
+        assigned, y resized and partly assigned, nfunc possibly not reset.  The model does not say which state that is:
+        [objs_abandon] takes it as an argument ([left]), and the theorems hold for every such state. *)
+Inductive nmput :=
+| PutY (y : list T)                              (* m.y = y *)
+| PutS (s : list (list T))                       (* m.current_simplex = s *)
+| PutN (nfunc : Z) (mpts ndim : nat) (fmin : T). (* m.nfunc = ..; m.mpts = ..; m.ndim = ..; m.fmin = .. *)
+
+Definition obj_put (ob : nmobj) (p : nmput) : nmobj :=
+  match p with
+  | PutY y => mkObj (ob_nfunc ob) (ob_mpts ob) (ob_ndim ob) (ob_fmin ob) y (ob_simplex ob)
+  | PutS s => mkObj (ob_nfunc ob) (ob_mpts ob) (ob_ndim ob) (ob_fmin ob) (ob_y ob) s
+  | PutN nf mp nd fm => mkObj nf mp nd fm (ob_y ob) (ob_simplex ob)
+  end.
+Definition objs_put (objs : list nmobj) (k : nat) (p : nmput) : list nmobj := set_obj objs k (obj_put (obj_at objs k) p).
+Definition objs_abandon (objs : list nmobj) (k : nat) (left : nmobj) : list nmobj := set_obj objs k left.
+
+(** the points an abandoned call has asked for: the first n points of the trace of the call ([None]: the call returns before its
+    n-th evaluation, so it is not abandoned) *)
+Definition abandoned_call (ftol : T) (c : nmcall) (n : nat) : res (option (list (list T))) :=
+  rmap (fun o => if Nat.leb n (length (o_tr o)) then Some (firstn n (o_tr o)) else None) (fresh_call ftol c).
+
+(** a request none of whose arguments is a member of an object *)
+Definition req_given (r : nmreq) : bool :=
+  match r with
+  | ReqG _ _ => true
+  | ReqGS _ _ => false
+  | ReqD _ (VGiven _) (DVec (VGiven _)) => true
+  | ReqD _ (VGiven _) DStart => true
+  | ReqD _ _ _ => false
+  | Req1 _ (VGiven _) _ => true
+  | Req1 _ _ _ => false
+  end.
+
 (** ** 3.4 profiled objectives: the objective of an outer minimisation runs a minimisation itself (re-entrancy)
     F(x) = min_z g(x ++ z), computed by Nelder-Mead on an object [ob] (a fresh or a reused one) or by Find_Minimum *)
 Definition profile_nm1 (g : list T -> T) (ob : nmobj) (ftol_in : T) (z0 : list T) (din : T) (x : list T) : res (nmobj * T) :=
